@@ -35,7 +35,7 @@ import threading
 from concurrent.futures import ThreadPoolExecutor
 from typing import Any
 
-from hv.gen import argnames, family
+from hv.gen import argnames, family, stacking
 from hv.record import Recorder
 
 ID = "C18"
@@ -526,6 +526,7 @@ def run(R: Recorder, tier: str, seed: int, shard: int, nshards: int) -> None:
     if shard == 0:
         mimic_checks(R)
         argnames.check(R, "transparent", argname_wrappers())
+        stacking.check_traced(R, "traced-scope")
     rng = random.Random(f"C18/{seed}")
     capture = LogCapture()
     root = logging.getLogger()
@@ -566,6 +567,9 @@ def replay(R: Recorder, case: dict[str, Any]) -> None:
         return
     if "argnames" in case:
         argnames.check(R, "transparent", argname_wrappers(), only=case["argnames"])
+        return
+    if "stacking" in case:
+        stacking.check_traced(R, "traced-scope", only=case["stacking"])
         return
     capture = LogCapture()
     root = logging.getLogger()
